@@ -96,11 +96,22 @@ def run_history(c, positions, kinds, backend, rng_seed):
             if kws != expected_kwargs(r.kind, c.op, i):
                 out.append(({"kind": "factory_wrong_keywords", "step": step, "factory": r.kind}, {"call": c.record(), "position": i, "got": str(kws), "expected": str(expected_kwargs(r.kind, c.op, i))}))
 
-    # step 1: first call; step 2: cached repeat; both must equal the plain call
+    # step 1: first call (the traced graph is captured); step 2: cached repeat; both must equal the plain call
     for step in ("first", "repeat"):
         recs = {i: Recorder(c.arrays[i], kinds[i]) for i in positions}
         try:
-            r = common.with_alarm(30, fn, c.desc, *args_with(recs), **kw)
+            if step == "first":
+                with irser.Capture() as cap:
+                    r = common.with_alarm(30, fn, c.desc, *args_with(recs), **kw)
+                for rec in cap.records:
+                    try:
+                        GRAPHS.append({"wire": irser.ser_graph(rec["graph"]), "positions": positions,
+                                       "shapes": {i: [int(s) for s in np.shape(c.arrays[i])] for i in positions},
+                                       "kinds": kinds, "call": c.record(), "backend": backend})
+                    except irser.Unsupported:
+                        pass
+            else:
+                r = common.with_alarm(30, fn, c.desc, *args_with(recs), **kw)
             r = [np.asarray(x) for x in (r if isinstance(r, tuple) else (r,))]
             if not eq(r, base[1]):
                 out.append(({"kind": "factory_result_differs", "step": step, "family": c.family}, {"call": c.record(), "positions": positions}))
@@ -160,12 +171,21 @@ def run_history(c, positions, kinds, backend, rng_seed):
     return out
 
 
+GRAPHS = []
+
+
 def _work(item):
     c, positions, kinds, seed = item
     res = []
+    GRAPHS.clear()
     for b in ["numpy", "numpy.numpylike"]:
         res.extend(run_history(c, positions, kinds, b, seed))
-    return res
+    return res, list(GRAPHS)
+
+
+def factory_events(events, i):
+    """events of the symbolic evaluation whose callee is graph input i"""
+    return [e for e in events if e[0] == "call" and e[1] == ["in", str(i)]]
 
 
 def run(ctx):
@@ -188,9 +208,27 @@ def run(ctx):
         items.append((c, positions, kinds, ctx.rng.randrange(1 << 30)))
         ctx.distinct.add(c.op + "|" + c.desc + "|" + json.dumps(positions))
     res = common.pmap(_work, items)
-    for viol in res:
+    graphs = []
+    for viol, gs in res:
+        graphs.extend(gs)
         for tags, payload in viol:
             ctx.report(tags, payload)
+    # the traced program, evaluated node by node by the extracted model: one call of every factory input, with the resolved shape
+    outs = ctx.model.batch([sx(["ir_seval", g["wire"]]) for g in graphs])
+    n_graph = 0
+    for g, o in zip(graphs, outs):
+        if o[0] != "ok":
+            continue
+        n_graph += 1
+        for i in g["positions"]:
+            evs = factory_events(o[1], i)
+            want_args = [["tup"] + [["i", str(s)] for s in g["shapes"][i]]]
+            if len(evs) != 1 or evs[0][2] != want_args:
+                ctx.report({"kind": "traced_program_calls_factory_wrongly", "count": len(evs)},
+                           {"call": g["call"], "position": i, "events": evs[:3], "expected_args": want_args, "backend": g["backend"]})
+            elif sorted("".join(chr(int(x)) for x in kv[0][1:]) for kv in evs[0][3]) != sorted(expected_kwargs(g["kinds"][i], g["call"]["op"], i)):
+                ctx.report({"kind": "traced_program_factory_keywords"}, {"call": g["call"], "position": i, "events": evs[:1], "factory": g["kinds"][i]})
+    ctx.coverage["traced_programs_checked"] = n_graph
     for c, positions, kinds, _ in items[:4]:
         ctx.sample({"call": c.record(), "factory_positions": positions, "kinds": kinds})
     ctx.coverage.update({
